@@ -33,6 +33,16 @@ def op_target(world, op):
     return float(np.asarray(t, dtype=world.problem.dtype))     # the target in the state's precision (what a "few rounding units" refers to)
 
 
+def requested_tolerances(world, i, integ):
+    req = {"rtol": world.scn["system"].get("rtol"), "atol": world.scn["system"].get("atol")}
+    for op_ in world.scn["ops"][:i + 1]:
+        if op_.get("op") == "set" and op_.get("attr") in ("rtol", "atol"):
+            req[op_["attr"]] = op_["value"]
+    rtol = float(req["rtol"]) if req["rtol"] is not None else _f(integ.rtol)
+    atol = float(req["atol"]) if req["atol"] is not None else _f(integ.atol)
+    return rtol, atol
+
+
 def integrated_ok(snap):
     return snap["kind"] == "integrate" and snap["exc"] is None
 
@@ -453,7 +463,9 @@ class Accuracy(Monitor):
             return      # spans of hundreds of time constants: only "finite or an error" is judged
         exact = world.problem.exact(t[-1], t[0], np.asarray(y[0], dtype=np.float64), k=k)
         err = float(np.max(np.abs(np.asarray(y[-1], dtype=np.float64) - exact)))
-        rtol, atol = _f(integ.rtol), _f(integ.atol)
+        # the tolerances the USER asked for (constructor arguments, then the setter ops of the history) - read back from the integrator
+        # only where the user gave none: a library that swaps a requested tolerance for another value must not vouch for itself
+        rtol, atol = requested_tolerances(world, i, integ)
         ymax = float(np.max(np.abs(y)))
         tol = atol + rtol * ymax
         amp = world.problem.amplification(_f(t[0]), _f(t[-1]), k)
